@@ -145,6 +145,7 @@ TReset ==
   /\ pend' = [ch \in TChannels |-> NoPend]
   /\ issued' = {} /\ revealed' = {} /\ nonces' = {} /\ wire' = {}
   /\ closed' = [ch \in TChannels |-> NoClose]
+  /\ spent' = [ch \in TChannels |-> <<>>]
   /\ last' = Step("init", 0, "", "ok")
   /\ lockIds' = [ch \in TChannels |-> <<>>]
   /\ nonceIds' = [ch \in TChannels |-> <<>>]
